@@ -52,6 +52,25 @@ Theorem C05_load_paths_agree :
 Proof. exact load_paths_agree. Qed.
 Print Assumptions C05_load_paths_agree.
 
+(* The whole chain of the property: an engine loaded (LoadFromIR) from the value obtained by evaluating the printed IR
+   of a rules file equals the engine loaded from the source (Load) -- given the two stated facts about LoadFile:
+   it cannot tell nil from empty CustomDecls/BundleImports (its uses of them are regenerated: range / len only, see
+   C05_loop_slices_nil_insensitive) and config.pkg does not change what it builds. *)
+Theorem C05_loop_slices_nil_insensitive :
+  forallb (fun u => String.eqb u "range" || String.eqb u "len") gen_loop_slice_uses = true.
+Proof. exact gen_loop_slices_nil_insensitive. Qed.
+Print Assumptions C05_loop_slices_nil_insensitive.
+
+Theorem C05_precompiled_equals_source :
+  forall (src pkginfo ruleset err : Type) (convert : src -> val * pkginfo + err) (load_file : option pkginfo -> val -> ruleset + err),
+    (forall pk f, load_file pk (normalize_file f) = load_file pk f) ->
+    (forall p f, load_file (Some p) f = load_file None f) ->
+    forall s f p, convert s = inl (f, p) -> file_wf f ->
+    exists f', gen_ev (TNamed "File") false (gen_print_file f) = Some f' /\
+               load src val pkginfo ruleset err convert load_file s = load_from_ir val pkginfo ruleset err load_file f'.
+Proof. exact gen_precompiled_equals_source. Qed.
+Print Assumptions C05_precompiled_equals_source.
+
 (* non-vacuity *)
 Definition ex_fe : val :=
   VStruct "FilterExpr" [VInt 7; VOp 2; VStr [97]; VNil;
